@@ -84,6 +84,26 @@ Sequences(codec) ==
     \cup {<<c>> : c \in {x \in Classes : ClassOK(codec, x)}}
     \cup {<<"3m", "half">>, <<"m+1", "m">>}
 
+\* ---- persistent streams: a format that lives through several sub-streams.  An always-available
+\* stream keeps its formats (and their RTP encoders) while the source changes: the offline filler,
+\* a publisher, the filler again, another publisher.  "One fixed offset per format" and the
+\* continuity of sequence numbers are then statements about the whole life of the format.
+\* (Whether the offset may change when the format itself is re-created because the tracks changed
+\* is left open: the tracks never change in these runs.)
+PersistCodecs == {"H264", "H265", "AV1", "VP9", "Opus", "MPEG4Audio", "G711", "LPCM"}
+Offline == [kind |-> "offline", rtp |-> FALSE, cms |-> <<>>]
+Pub(rtp, cms) == [kind |-> "pub", rtp |-> rtp, cms |-> cms]
+\* what the publishers send: video frames around and above M (the RTP publisher also in fragments),
+\* audio frames up to M
+PubUnits(cd, rtp) ==
+    IF cd \in {"H264", "H265", "AV1", "VP9"}
+    THEN IF rtp THEN <<CM("m+1", "big"), CM("2m", "small"), CM("half", "small")>>
+                ELSE <<CM("half", "big"), CM("m+1", "big"), CM("3m", "big")>>
+    ELSE <<CM("half", "big"), CM("m-3", "big"), CM("m", "big")>>
+PhaseSeqs(cd) ==
+    { <<Offline, Pub(FALSE, PubUnits(cd, FALSE)), Offline, Pub(TRUE, PubUnits(cd, TRUE))>>,
+      <<Offline, Pub(TRUE, PubUnits(cd, TRUE)), Pub(FALSE, PubUnits(cd, FALSE)), Offline>> }
+
 \* ------------------------------------------------------------------ layer 2, over an observed unit
 \* u = [m, uniform, pkts: <<[len, seq, tsoff]>>, psig, dsig, derrs]
 Fits(u)        == \A i \in DOMAIN u.pkts : u.pkts[i].len <= u.m
@@ -120,6 +140,13 @@ UnitsOf(cms, m) ==
     [i \in 1..Len(cms) |-> [class |-> cms[i].class, n |-> Shape(codec, cms[i].class, m).n,
                             size |-> Shape(codec, cms[i].class, m).size,
                             pub |-> PubMax(branch, cms[i].mode, m)]]
+\* persistent-stream runs are emitted once per codec (by the state of the non-RTP branch)
+EmitPersist ==
+    (branch = "nonrtp" /\ codec \in PersistCodecs) =>
+        \A m \in Ms : \A ps \in PhaseSeqs(codec) :
+            Emit("PCASE", [codec |-> codec, branch |-> "persist", m |-> m,
+                           phases |-> [i \in 1..Len(ps) |-> [kind |-> ps[i].kind, rtp |-> ps[i].rtp,
+                                                              units |-> UnitsOf(ps[i].cms, m)]]])
 EmitCases ==
     \A m \in Ms :
         /\ \A cs \in Sequences(codec) :
